@@ -55,6 +55,13 @@ def case(args):
     seed, i = args
     rng = random.Random(seed * 86028121 + i)
     sp, cores, mx = build(rng)
+    if i % 3 == 1:
+        # a partially completed workflow that is resumed: some tasks are skipped while others hold slots
+        base = t3.run_model(sp.text())
+        for t in base["tasks"]:
+            if rng.random() < 0.4:
+                for port, st, path in t["outs"]:
+                    sp.files[path] = "ALREADY-THERE\n"
     maxseen = {}
     def chk(sp_, model, impl, sc):
         problems = []
